@@ -76,21 +76,10 @@ def shareF (n0 : Nat) (h : Heap) : Nat → Addr → StateM (List (Addr × Nat)) 
       let ms ← kvs.mapM (fun (k, x) => do let j ← shareF n0 h f x; pure (k, j))
       pure (Json.mkObj [("id", id), ("m", Json.mkObj ms)])
 
-/-- the sharing map of the node at `root` in `h`, relative to an input heap of size `n0` -/
-def share (n0 : Nat) (h : Heap) (root : Addr) : Json :=
-  (shareF n0 h (h.size + 1) root).run' []
-
-/-- the common result object: abstraction of the result, its sharing map, and the abstractions
-    of the input roots in the NEW heap (what the inputs look like afterwards) -/
-def result (h0 : Heap) (roots : List Addr) (r : Option (Heap × Addr)) : Json :=
-  match r with
-  | none => Json.mkObj [("ok", .bool false)]
-  | some (h1, a) =>
-    Json.mkObj [("ok", .bool true),
-      ("abs", Wire.optNodeToJson (abs h1 a)),
-      ("share", share h0.size h1 a),
-      ("inputs", .arr (roots.map (fun x => Wire.optNodeToJson (abs h1 x))).toArray),
-      ("inputsBefore", .arr (roots.map (fun x => Wire.optNodeToJson (abs h0 x))).toArray)]
+/-- the sharing map of the node at `root` in `h`, relative to an input heap of size `n0`;
+    also the numbering of the new cells it used -/
+def share (n0 : Nat) (h : Heap) (root : Addr) : Json × List (Addr × Nat) :=
+  (shareF n0 h (h.size + 1) root).run []
 
 def getOpt (a : Json) : Except String ListStrategy := do
   match Wire.getOptStr a "opt" with
@@ -99,13 +88,19 @@ def getOpt (a : Json) : Except String ListStrategy := do
   | none => pure .meld
   | some o => throw s!"unknown list strategy {o}"
 
-/-- one in-place builder write, `{"op": …, "at": addr, "name": …, "idx": n, "v": addr}` -/
-def applyWrite (h : Heap) (j : Json) : Except String Heap := do
+/-- one in-place builder write `{"op": …, "at": addr | "atNew": k, "name": …, "idx": n}`;
+    `at` addresses an input cell, `atNew` a new cell by its number in the sharing map -/
+def applyWrite (news : List (Addr × Nat)) (h : Heap) (j : Json) : Except String Heap := do
   let op ← Wire.getStr j "op"
-  let tgt ← Wire.getNat j "at"
+  let tgt ← (match Wire.getNat j "at" with
+    | .ok a => pure a
+    | .error _ => do
+      let k ← Wire.getNat j "atNew"
+      match news.find? (fun p => p.2 == k) with
+      | some (a, _) => pure a
+      | none => throw s!"write: no new cell number {k}")
   let r : Option Heap ←
     match op with
-    | "addValue" => do pure (Ytk.Heap.addValue h tgt (← Wire.getStr j "name") (← Wire.getNat j "v"))
     | "addLeaf" => do
       let (h1, l) := newLeaf h ⟨"string", "probe"⟩
       pure (Ytk.Heap.addValue h1 tgt (← Wire.getStr j "name") l)
@@ -114,7 +109,7 @@ def applyWrite (h : Heap) (j : Json) : Except String Heap := do
     | "remove" => do pure (Ytk.Heap.remove h tgt (← Wire.getStr j "name"))
     | "listSet" => do
       let (h1, l) := newLeaf h ⟨"string", "probe"⟩
-      pure (Ytk.Heap.listSet h1 tgt (← Wire.getNat j "idx") l)
+      pure (Ytk.Heap.listSet h1 tgt ((Wire.getNat j "idx").toOption.getD 0) l)
     | "listAppend" => do
       let (h1, l) := newLeaf h ⟨"string", "probe"⟩
       pure (Ytk.Heap.listAppend h1 tgt l)
@@ -123,5 +118,35 @@ def applyWrite (h : Heap) (j : Json) : Except String Heap := do
   match r with
   | some h' => pure h'
   | none => throw s!"write {op} at {tgt}: wrong cell kind"
+
+def applyWrites (news : List (Addr × Nat)) (h : Heap) (a : Json) (k : String) : Except String Heap := do
+  match a.getObjVal? k with
+  | .ok (.arr ws) => ws.toList.foldlM (applyWrite news) h
+  | _ => pure h
+
+def absAll (h : Heap) (roots : List Addr) : Json :=
+  .arr (roots.map (fun x => Wire.optNodeToJson (abs h x))).toArray
+
+/-- the common result object: abstraction of the result, its sharing map, the abstractions of
+    the input roots before and after, "no old cell was written", and — after the in-place probe
+    writes of each phase — the abstractions of `probeRoots` (result first) -/
+def result (a : Json) (h0 : Heap) (roots : List Addr) (r : Option (Heap × Addr))
+    (phases : List (String × String)) (resultFirst : Bool) : Except String Json := do
+  match r with
+  | none => pure (Json.mkObj [("ok", .bool false)])
+  | some (h1, x) =>
+    let (sh, news) := share h0.size h1 x
+    let probeRoots := if resultFirst then x :: roots else roots ++ [x]
+    let mut h := h1
+    let mut extra : List (String × Json) := []
+    for (argKey, outKey) in phases do
+      h ← applyWrites news h a argKey
+      extra := extra ++ [(outKey, absAll h probeRoots)]
+    pure (Json.mkObj ([("ok", .bool true),
+      ("abs", Wire.optNodeToJson (abs h1 x)),
+      ("share", sh),
+      ("inputs", absAll h1 roots),
+      ("inputsBefore", absAll h0 roots),
+      ("prefix", .bool (h1.cells.take h0.size == h0.cells))] ++ extra))
 
 end Ytk.HeapWire
